@@ -63,6 +63,9 @@ type FuncSpec struct {
 	Props     []string // property ids this contract serves
 	NoBody    bool
 	Thread    string   // "any": may run on a goroutine that races with Shutdown: shared fields are unstable
+	Applies   string   // higher-order dependency: runs this closure parameter once
+	Rollback  []string // ghost variables restored if the applied closure returns an error
+	AnyArgs   bool     // callback contract applicable to any signature (arguments ignored)
 	Opaque    []string // spec functions whose definition is hidden in this function's queries
 	Holds     string   // monitor held at entry and exit (critical section spans the call)
 	Dead      []string // canaries that must be unreachable (proved, not assumed)
@@ -192,7 +195,7 @@ func parseClause(text, file string, line int) Clause {
 var keywords = map[string]bool{"spec": true, "func": true, "trusted": true, "lemma": true, "requires": true,
 	"ensures": true, "ensures_on_panic": true, "may_panic": true, "modifies": true, "loop": true, "decreases": true,
 	"=": true, "witness": true, "ghost": true, "use": true, "assert": true, "replay_domain": true, "props": true,
-	"uninterpreted": true, "nobody": true, "callback": true, "end": true, "trigger": true, "ghostvar": true, "pred": true, "dead": true, "native": true, "callsite": true, "monitor": true, "lock": true, "cond": true, "protects": true, "owns": true, "invariant": true, "rely": true, "holds": true, "shared": true, "thread": true, "opaque": true}
+	"uninterpreted": true, "nobody": true, "callback": true, "end": true, "trigger": true, "ghostvar": true, "pred": true, "dead": true, "native": true, "callsite": true, "monitor": true, "lock": true, "cond": true, "protects": true, "owns": true, "invariant": true, "rely": true, "holds": true, "shared": true, "thread": true, "opaque": true, "anyargs": true, "applies": true}
 
 // LoadSpecs reads every zz_contracts_verif.go below root plus extra files.
 func LoadSpecs(files []string) *Specs {
@@ -272,6 +275,18 @@ func (sp *Specs) loadFile(file string) {
 			for _, p := range strings.Split(rest, ",") {
 				curM.Shared = append(curM.Shared, strings.TrimSpace(p))
 			}
+		case "applies":
+			// applies <param> [rollback <ghost>,...]: the function runs the closure passed as <param> exactly once
+			// and returns its error; the listed ghost state is restored when that error is non-nil
+			f := strings.Fields(strings.ReplaceAll(rest, ",", " "))
+			mustF(curF, base, rl.line).Applies = f[0]
+			for i := 1; i < len(f); i++ {
+				if f[i] != "rollback" {
+					curF.Rollback = append(curF.Rollback, f[i])
+				}
+			}
+		case "anyargs":
+			mustF(curF, base, rl.line).AnyArgs = true
 		case "opaque":
 			mustF(curF, base, rl.line).Opaque = append(curF.Opaque, strings.Fields(rest)...)
 		case "thread":
